@@ -71,9 +71,15 @@ def install(reg):
             ("class", "result._ubxClass == message[2:3]"),
             ("id", "result._ubxID == message[3:4]"),
             ("mode", f"result._mode == {PARSE_MODE}"),
-            ("payload", f"(result._payload is None and {PARSE_PAYLOAD_NONE}) or "
-                        f"(not {PARSE_PAYLOAD_NONE} and result._payload == message[6:len(message) - 2])"),
+            ("payload-none", f"implies({PARSE_PAYLOAD_NONE}, result._payload is None)"),
+            ("payload", f"implies(not {PARSE_PAYLOAD_NONE}, result._payload == message[6:len(message) - 2])"),
+            ("length-width", "len(result._length) == 2"),
+            ("length-value", "u_le(result._length) == len(payload_bytes(result._payload))"),
+            ("checksum", "result._checksum == fletcher8(result._ubxClass + result._ubxID + result._length + "
+                         "payload_bytes(result._payload))"),
         ],
+        fresh_fields={"_length": ("bytesn", 2), "_checksum": ("bytesn", 2)},
+        returns=lambda ex: ex.bm.new_object(__import__("pyubx2").UBXMessage),
         raises={"UBXParseError": "msgmode not in (0, 1, 2, 3) or (validate & 1 != 0 and not wf_frame(message))",
                 "UBXMessageError": None, "UBXTypeError": None},
         raises_iff={"UBXParseError": "msgmode not in (0, 1, 2, 3)"},
